@@ -81,13 +81,64 @@ fn req(toks: &[&str]) -> String {
 }
 
 /// sc K { c name value domain expires|- http_only path secs subsec S|L|N secure }
-fn build_cookie(t: &[&str]) -> Cookie {
+///
+/// The builder calls are applied in a pseudo-random order derived from the case text and `salt`
+/// (the setters must commute: each attribute is what was set last for it), after a first round of
+/// "noise" calls with other values that the final calls must override.
+fn build_cookie(t: &[&str], salt: u64) -> Cookie {
     let name = ascii_of_tok(t[1]);
     let value: AsciiString = ascii_of_tok(t[2]).try_into().unwrap();
-    let mut c = Cookie::new(name, value);
+    let mut seed: u64 = 0xcbf2_9ce4_8422_2325 ^ salt;
+    for tok in t {
+        for b in tok.bytes() {
+            seed = (seed ^ u64::from(b)).wrapping_mul(0x0100_0000_01b3);
+        }
+    }
+    let mut next = move || {
+        seed = seed.wrapping_mul(6_364_136_223_846_793_005).wrapping_add(1_442_695_040_888_963_407);
+        (seed >> 33) as usize
+    };
+    type Step = Box<dyn FnOnce(Cookie) -> Cookie>;
+    let shuffle = |v: &mut Vec<Step>, next: &mut dyn FnMut() -> usize| {
+        for i in (1..v.len()).rev() {
+            let j = next() % (i + 1);
+            v.swap(i, j);
+        }
+    };
+    let same_site = match t[9] {
+        "S" => SameSite::Strict,
+        "L" => SameSite::Lax,
+        "N" => SameSite::None,
+        _ => panic!("bad samesite"),
+    };
+    let noise_same_site = if t[9] == "N" { SameSite::Lax } else { SameSite::None };
     let domain = ascii_of_tok(t[3]);
-    // every builder is exercised, also with the "unset" values
-    c = c.with_domain(domain);
+    let path = ascii_of_tok(t[6]);
+    let secs: u64 = t[7].parse().unwrap();
+    let nanos: u32 = if t[8] == "1" { 500_000_000 } else { 0 };
+    let http_only = t[5] == "1";
+    let secure = t[10] == "1";
+    // round 1: noise (values the final calls must replace); with_expires cannot be unset, so no noise for it
+    let mut noise: Vec<Step> = vec![
+        Box::new(|c: Cookie| c.with_domain("noise.example")),
+        Box::new(move |c: Cookie| c.with_http_only(!http_only)),
+        Box::new(|c: Cookie| c.with_path("/noise")),
+        Box::new(|c: Cookie| c.with_max_age(Duration::new(77, 0))),
+        Box::new(move |c: Cookie| c.with_same_site(noise_same_site)),
+        Box::new(move |c: Cookie| c.with_secure(!secure)),
+    ];
+    shuffle(&mut noise, &mut next);
+    let keep = next() % (noise.len() + 1);
+    noise.truncate(keep);
+    // round 2: every builder is exercised with the final value, also with the "unset" values
+    let mut fin: Vec<Step> = vec![
+        Box::new(move |c: Cookie| c.with_domain(domain)),
+        Box::new(move |c: Cookie| c.with_http_only(http_only)),
+        Box::new(move |c: Cookie| c.with_path(path)),
+        Box::new(move |c: Cookie| c.with_max_age(Duration::new(secs, nanos))),
+        Box::new(move |c: Cookie| c.with_same_site(same_site)),
+        Box::new(move |c: Cookie| c.with_secure(secure)),
+    ];
     if t[4] != "-" {
         let secs: u64 = t[4].parse().unwrap();
         // "0" stands for an instant that is not the epoch but has zero whole seconds
@@ -96,20 +147,17 @@ fn build_cookie(t: &[&str]) -> Cookie {
         } else {
             SystemTime::UNIX_EPOCH + Duration::from_secs(secs)
         };
-        c = c.with_expires(when);
+        fin.push(Box::new(move |c: Cookie| c.with_expires(when)));
     }
-    c = c.with_http_only(t[5] == "1");
-    c = c.with_path(ascii_of_tok(t[6]));
-    let secs: u64 = t[7].parse().unwrap();
-    let nanos: u32 = if t[8] == "1" { 500_000_000 } else { 0 };
-    c = c.with_max_age(Duration::new(secs, nanos));
-    c = c.with_same_site(match t[9] {
-        "S" => SameSite::Strict,
-        "L" => SameSite::Lax,
-        "N" => SameSite::None,
-        _ => panic!("bad samesite"),
-    });
-    c.with_secure(t[10] == "1")
+    shuffle(&mut fin, &mut next);
+    let mut c = Cookie::new(name, value);
+    for f in noise {
+        c = f(c);
+    }
+    for f in fin {
+        c = f(c);
+    }
+    c
 }
 
 fn sc(toks: &[&str]) -> String {
@@ -120,9 +168,9 @@ fn sc(toks: &[&str]) -> String {
         for j in 0..k {
             let t = &toks[1 + 11 * j..1 + 11 * (j + 1)];
             assert_eq!(t[0], "c");
-            let s: AsciiString = build_cookie(t).into();
+            let s: AsciiString = build_cookie(t, 0).into();
             out.push_str(&format!("str {} ; ", tok_of_bytes(s.as_bytes())));
-            resp = resp.with_set_cookie(build_cookie(t));
+            resp = resp.with_set_cookie(build_cookie(t, 1));
         }
         let vs = resp.headers.get_all("set-cookie");
         out.push_str(&format!("hdr {}", vs.len()));
